@@ -566,7 +566,12 @@ fn oracle_c03(rep: &mut Report, c: &EmitCase, em: &Emitted) {
         let path_params: Vec<&hir::Parameter> = o.parameters.iter().filter(|p| p.location == hir::Location::Path).collect();
         // D: placeholders and `in: path` parameters correspond one-to-one
         let placeholders: BTreeSet<String> = regex::Regex::new(r"\{([^}]*)\}").unwrap().captures_iter(&o.path).map(|c| c[1].to_string()).collect();
-        if placeholders != path_params.iter().map(|p| p.name.clone()).collect::<BTreeSet<String>>() { rep.bump("c03_outside_D_placeholders_vs_path_parameters"); continue; }
+        let declared_path: BTreeSet<String> = {
+            let item = &c.doc["paths"][&o.path];
+            let resolve = |p: &Value| -> Value { match p.get("$ref").and_then(|r| r.as_str()) { Some(r) => c.doc["components"]["parameters"].get(r.rsplit('/').next().unwrap_or("")).cloned().unwrap_or(Value::Null), None => p.clone() } };
+            item[&o.method]["parameters"].as_array().into_iter().flatten().chain(item["parameters"].as_array().into_iter().flatten()).map(resolve).filter(|p| p["in"] == "path").filter_map(|p| p["name"].as_str().map(|x| x.to_string())).collect()
+        };
+        if placeholders != declared_path { rep.bump("c03_outside_D_placeholders_vs_path_parameters"); continue; }
         match url.as_ref().and_then(|u| u.as_list()).map(|l| (l[0].as_atom().unwrap_or("").to_string(), l.to_vec())) {
             Some((k, l)) if k == "literal" => { if l[1].as_str() != Some(o.path.as_str()) || !path_params.is_empty() { rep.oracle_fail("urlWrong", vec![], &case, &format!("{} {}", o.method, o.path)); } else { rep.bump("c03_urls_ok"); } }
             Some((k, l)) if k == "format" => {
